@@ -2,7 +2,7 @@
     Model: Graph/Edit.v (add_node / add_edge / remove_node / update_node (become) /
     parameter_names / copy over several live models).  Proofs: Proofs/C14_Edit.v. *)
 From Coq Require Import List String ZArith Arith Bool Sorting.Sorted.
-From Elfi Require Import Graph.Net Graph.Edit Base.StrOrder Proofs.C03_Exec Proofs.C14_Edit.
+From Elfi Require Import Graph.Net Graph.Edit Base.StrOrder Proofs.C03_Exec Proofs.C14_Edit Proofs.C14_Become.
 Import ListNotations.
 
 (** Along every edit script over any number of live models (creation with parents, add_edge,
@@ -61,6 +61,93 @@ Theorem C14_become_acyclic :
 Proof. exact update_node_acyclic. Qed.
 Print Assumptions C14_become_acyclic.
 
+(** become, in full (Proofs/C14_Become.v).  Everything below follows from the success of
+    [update_node m n u] and [n <> u]; the edge clauses also use [simple]: one edge per ordered
+    pair of nodes, which holds in every state an edit script can reach
+    ([C14_reachable_simple]).  [cleaned_b m n k] says that [k] is one of the private ("_...")
+    positional parents of [n] that the removal of the old [n] takes along; its logical meaning is
+    the last clause of [C14_become_takes_parents].
+
+    1. The replaced node keeps its children: every out-edge to a child other than [u] (and other
+    than [n] itself) is kept with its parameter; no out-edge is invented except the self-loop that
+    an edge [n -> u] turns into; and when [u] is not a child of [n] the out-edges are exactly the
+    same.  (With a self-loop at [n] and an edge [n -> u] the self-loop's parameter is overwritten:
+    [become_children_selfloop_refuted].) *)
+Theorem C14_become_keeps_children :
+  forall m n u m', update_node m n u = Ok m' -> n <> u -> simple (s_edges m) ->
+    (forall c p, In (n, c, p) (s_edges m) -> c <> u -> c <> n -> In (n, c, p) (s_edges m'))
+    /\ (forall c p, In (n, c, p) (s_edges m') ->
+          (In (n, c, p) (s_edges m) /\ c <> u) \/ (c = n /\ In (n, u, p) (s_edges m)))
+    /\ ((forall p, ~ In (n, u, p) (s_edges m)) ->
+        forall c p, In (n, c, p) (s_edges m') <-> In (n, c, p) (s_edges m)).
+Proof. exact become_keeps_children. Qed.
+Print Assumptions C14_become_keeps_children.
+
+(** 2. It takes the replacement's parents: every in-edge of [u] from a node other than [n] and
+    [u] is copied onto [n] with its parameter; when [u] is not a child of [n] and [n] has no
+    self-loop the in-edges of [n] afterwards are exactly those (so an old parent of [n] stays a
+    parent only if it was also a parent of [u], with the same parameter); the nodes that disappear
+    are [u] and exactly the clean-up set: private positional parents of [n] all of whose edges
+    went to or came from [n]. *)
+Theorem C14_become_takes_parents :
+  forall m n u m', update_node m n u = Ok m' -> n <> u -> simple (s_edges m) ->
+    (forall q p, In (q, u, p) (s_edges m) -> q <> n -> q <> u -> In (q, n, p) (s_edges m'))
+    /\ ((forall p, ~ In (n, u, p) (s_edges m)) -> (forall p, ~ In (n, n, p) (s_edges m)) ->
+        forall q p, In (q, n, p) (s_edges m') <-> In (q, u, p) (s_edges m) /\ q <> u)
+    /\ (forall k, In k (names m') <-> In k (names m) /\ k <> u /\ cleaned_b m n k = false)
+    /\ (forall k, cleaned_b m n k = true <->
+          k <> n /\ In k (names m) /\ is_private k = true
+          /\ (exists i, In (k, n, PInt i) (s_edges m))
+          /\ (forall e, In e (s_edges m) -> e_src e = k \/ e_dst e = k -> e_src e = n \/ e_dst e = n)).
+Proof. exact become_takes_parents. Qed.
+Print Assumptions C14_become_takes_parents.
+
+(** 3. Everything else is untouched: every node other than [n], [u] and the clean-up set keeps
+    its state; the edges between nodes other than [n] and [u] are the same before and after (and
+    none of them touches a cleaned-up node). *)
+Theorem C14_become_others_untouched :
+  forall m n u m', update_node m n u = Ok m' -> n <> u ->
+    (forall k, k <> n -> k <> u -> cleaned_b m n k = false -> lookup k (s_nodes m') = lookup k (s_nodes m))
+    /\ (forall e, e_src e <> n -> e_src e <> u -> e_dst e <> n -> e_dst e <> u ->
+          (In e (s_edges m') <-> In e (s_edges m)))
+    /\ (forall k e, cleaned_b m n k = true -> In e (s_edges m) -> e_src e <> n -> e_dst e <> n ->
+          e_src e <> k /\ e_dst e <> k).
+Proof. exact become_others_untouched. Qed.
+Print Assumptions C14_become_others_untouched.
+
+(** 4. Observed data: [n] ends up with [u]'s entry (or none), its own old entry is dropped, [u]
+    has none, the cleaned-up nodes have none and every other entry is unchanged. *)
+Theorem C14_become_observed :
+  forall m n u m', update_node m n u = Ok m' -> n <> u ->
+    lookup n (s_observed m') = lookup u (s_observed m)
+    /\ lookup u (s_observed m') = None
+    /\ forall k, k <> n -> k <> u ->
+         lookup k (s_observed m') = if cleaned_b m n k then None else lookup k (s_observed m).
+Proof. exact become_observed. Qed.
+Print Assumptions C14_become_observed.
+
+(** On an acyclic model with the replacement not reachable from the node, no side condition is
+    left: same out-edges, and the in-edges are exactly the replacement's. *)
+Theorem C14_become_edges_acyclic :
+  forall m n u m', update_node m n u = Ok m' -> simple (s_edges m) -> acyclic (s_edges m) ->
+    ~ reach (s_edges m) n u ->
+    (forall c p, In (n, c, p) (s_edges m') <-> In (n, c, p) (s_edges m))
+    /\ (forall q p, In (q, n, p) (s_edges m') <-> In (q, u, p) (s_edges m)).
+Proof. exact become_edges_acyclic. Qed.
+Print Assumptions C14_become_edges_acyclic.
+
+(** A successful become always leaves the replaced node in place and the model structurally
+    consistent, and [simple] holds for every model an edit script builds from the empty one. *)
+Theorem C14_become_closed :
+  forall m n u m', Closed m -> update_node m n u = Ok m' -> n <> u -> Closed m'.
+Proof. exact become_closed. Qed.
+Print Assumptions C14_become_closed.
+
+Theorem C14_reachable_simple :
+  forall ops ms, run [empty_net] ops = Ok ms -> Forall (fun m => simple (s_edges m)) ms.
+Proof. exact reachable_simple. Qed.
+Print Assumptions C14_reachable_simple.
+
 (** parameter_names lists exactly the parameter nodes, sorted; the setter marks exactly the
     named nodes. *)
 Theorem C14_parameter_names :
@@ -102,3 +189,53 @@ Example C14_example :
      | _ => false
      end = true.
 Proof. vm_compute. split; reflexivity. Qed.
+
+(** Non-vacuity for become: [n] has a private constant parent [_k] of its own (cleaned up), a
+    private parent [_s] shared with [u] (kept), a named non-private parent [a] (edge dropped), a
+    child [c]; [n], [u], [_k] and [c] carry observed data.  The hypotheses of the four theorems
+    hold and the result is computed. *)
+Local Open Scope string_scope.
+Definition ex_become : snet :=
+  {| s_nodes := [("_k", st0 (Some (VConst 1)) false false ""); ("_s", st0 (Some (VConst 2)) false false "");
+                 ("a", st0 None true true "a"); ("n", st0 None true false "n"); ("u", st0 None true false "u");
+                 ("c", st0 None true false "c")];
+     s_edges := [("_k", "n", PInt 0); ("_s", "n", PInt 1); ("a", "n", PStr "kw");
+                 ("_s", "u", PInt 0); ("a", "u", PInt 1); ("n", "c", PInt 0)];
+     s_observed := [("n", VConst 1); ("u", VConst 2); ("_k", VConst 3); ("c", VConst 4)] |}.
+Definition ex_become_after : snet :=
+  {| s_nodes := [("_s", st0 (Some (VConst 2)) false false ""); ("a", st0 None true true "a");
+                 ("c", st0 None true false "c"); ("n", st0 None true false "u")];
+     s_edges := [("n", "c", PInt 0); ("_s", "n", PInt 0); ("a", "n", PInt 1)];
+     s_observed := [("c", VConst 4); ("n", VConst 2)] |}.
+Example C14_become_example :
+  consistent_b ex_become = true /\ uniq_b (s_edges ex_become) = true
+  /\ pair_in "n" "u" (s_edges ex_become) = false /\ pair_in "n" "n" (s_edges ex_become) = false
+  /\ cleaned_b ex_become "n" "_k" = true /\ cleaned_b ex_become "n" "_s" = false
+  /\ match update_node ex_become "n" "u" with
+     | Ok m' => snet_eqb m' ex_become_after && consistent_b m'
+     | Err _ => false
+     end = true.
+Proof. vm_compute. repeat split. Qed.
+
+(** ... and the general theorems apply to it *)
+Example C14_become_example_applied :
+  forall m', update_node ex_become "n" "u" = Ok m' ->
+    (forall c p, In ("n", c, p) (s_edges m') <-> In ("n", c, p) (s_edges ex_become))
+    /\ (forall q p, In (q, "n", p) (s_edges m') <-> In (q, "u", p) (s_edges ex_become) /\ q <> "u")
+    /\ ~ In "_k" (names m') /\ In "_s" (names m')
+    /\ lookup "n" (s_observed m') = Some (VConst 2) /\ lookup "_k" (s_observed m') = None.
+Proof.
+  intros m' H.
+  assert (Hnu : "n" <> "u") by discriminate.
+  assert (Hsim : simple (s_edges ex_become)) by (apply uniq_simple, uniq_b_sound; reflexivity).
+  assert (Hchild : forall p, ~ In ("n", "u", p) (s_edges ex_become)) by (apply pair_in_false; reflexivity).
+  assert (Hloop : forall p, ~ In ("n", "n", p) (s_edges ex_become)) by (apply pair_in_false; reflexivity).
+  destruct (C14_become_keeps_children _ _ _ _ H Hnu Hsim) as [_ [_ Hc]].
+  destruct (C14_become_takes_parents _ _ _ _ H Hnu Hsim) as [_ [Hp [Hn _]]].
+  destruct (C14_become_observed _ _ _ _ H Hnu) as [Ho1 [_ Ho3]].
+  split; [exact (Hc Hchild)|]. split; [exact (Hp Hchild Hloop)|].
+  split; [intros Hin; apply Hn in Hin; destruct Hin as [_ [_ Hin]]; vm_compute in Hin; discriminate|].
+  split; [apply Hn; split; [simpl; tauto|]; split; [discriminate | reflexivity]|].
+  split; [rewrite Ho1; reflexivity|].
+  rewrite Ho3; [reflexivity | discriminate | discriminate].
+Qed.
